@@ -206,7 +206,7 @@ func VerifC18History() {
 				fr = append(fr, value.NewInt(v))
 				rf = append(rf, v)
 			}
-			m.PushClosure(fr)
+			m.PushClosure(&fr)
 			r.clo = append(r.clo, rf)
 		case 7:
 			vrt.Assume(len(r.clo) > p.baseClo)
@@ -267,7 +267,7 @@ func c18Call(p vPair, a, extra int) {
 		fr = append(fr, value.NewInt(v))
 		rf = append(rf, v)
 	}
-	p.m.PushClosure(fr)
+	p.m.PushClosure(&fr)
 	p.r.clo = append(p.r.clo, rf)
 	for i := 0; i < extra; i++ {
 		p.r.push(0, true)
